@@ -65,6 +65,11 @@ def mk_cfg(rng, crc, large, idw, seqw, mode=0, segctrl=0):
 def rand_cfg(rng, segctrl=False, **fixed):
     c = mk_cfg(rng, rng.getrandbits(1), rng.getrandbits(1), rng.choice(WIDTHS), rng.choice(WIDTHS), rng.getrandbits(1),
                rng.getrandbits(1) if segctrl else 0)
+    if rng.random() < 0.06:
+        # coincidences between fields: equal source and destination ids, sequence number equal to an id (where the widths allow)
+        c["dst"] = c["src"]
+        if rng.random() < 0.5:
+            c["seq"] = c["src"] & ((1 << 8 * c["seqw"]) - 1)
     if fixed:
         c.update(fixed)
         c["src"] &= (1 << 8 * c["idw"]) - 1
@@ -164,14 +169,30 @@ def rand_params(rng, kind, cfg, rich=True):
         return {"acked": rng.choice((4, 5)), "cond": rng.choice(CONDS), "tstatus": rng.getrandbits(2)}
     if kind == "metadata":
         nopt = rng.choice((0, 0, 1, 2, 3, 4)) if rich else 0
+        sname = rng.choice((None, rand_name(rng), rand_name(rng)))
         return {"closure": rng.getrandbits(1), "cksum_type": rng.choice(CKSUMS), "size": rand_fss(rng, large),
-                "src_name": rng.choice((None, rand_name(rng), rand_name(rng))),
-                "dst_name": rng.choice((None, rand_name(rng), rand_name(rng))),
+                "src_name": sname,
+                "dst_name": sname if rng.random() < 0.1 else rng.choice((None, rand_name(rng), rand_name(rng))),
                 "options": None if (nopt == 0 and rng.random() < 0.5) else [rand_option(rng) for _ in range(nopt)]}
     if kind == "nak":
-        nseg = rng.choice((0, 0, 1, 2, 3, 8, 64)) if rich else rng.choice((0, 1))
+        nseg = rng.choice((0, 0, 1, 2, 3, 8, 17, 64)) if rich else rng.choice((0, 1))
         segs = None if (nseg == 0 and rng.random() < 0.5) else [[rand_fss(rng, large), rand_fss(rng, large)] for _ in range(nseg)]
-        return {"start": rand_fss(rng, large), "end": rand_fss(rng, large), "segments": segs}
+        if segs and len(segs) >= 2 and rng.random() < 0.3:
+            # coincidences: contiguous requests (end == next start), duplicated requests, requests sharing a start, empty (0, 0)
+            how = rng.choice(("contiguous", "duplicate", "same_start", "zero"))
+            for i in range(1, len(segs)):
+                if how == "contiguous":
+                    segs[i][0] = segs[i - 1][1]
+                elif how == "duplicate":
+                    segs[i] = list(segs[i - 1])
+                elif how == "same_start":
+                    segs[i][0] = segs[0][0]
+                else:
+                    segs[i] = [0, 0]
+        start, end = rand_fss(rng, large), rand_fss(rng, large)
+        if rng.random() < 0.1:
+            end = start
+        return {"start": start, "end": end, "segments": segs}
     if kind == "prompt":
         return {"rr": rng.getrandbits(1)}
     if kind == "keep_alive":
